@@ -9,8 +9,11 @@ Record onode := mkN { n_id : Z; n_kind : bkind; n_ops : list Z; n_res : list Z }
 Definition mk (par : Z) (pf : bool) (py : Z) (n : onode) : opinfo :=
   mkInfo (n_id n) (n_kind n) (n_ops n) (n_res n) par pf py.
 
+Definition imap (inner : list (Z * onode)) : list opinfo := map (fun pi => mk (fst pi) false 0 (snd pi)) inner.
+
 Inductive cstmt :=
-| CLeaf (n : onode) (inner : list onode)          (* an op and the ops of its body region (if any) *)
+| CLeaf (n : onode) (inner : list (Z * onode))    (* an op and the ops nested in its regions (pre-order, each with
+                                                     the id of its parent op) *)
 | CFor (n : onode) (body : list cstmt) (y : onode) (* scf.for, its body, its scf.yield *)
 | CIf (n : onode) (th el : list cstmt).
 
@@ -19,7 +22,7 @@ Fixpoint flat1 (par : Z) (pf : bool) (py : Z) (s : cstmt) : list opinfo :=
   let fix fl (par : Z) (pf : bool) (py : Z) (l : list cstmt) {struct l} : list opinfo :=
     match l with [] => [] | x :: r => flat1 par pf py x ++ fl par pf py r end in
   match s with
-  | CLeaf n inner => mk par pf py n :: map (mk (n_id n) false 0) inner
+  | CLeaf n inner => mk par pf py n :: imap inner
   | CFor n b y => mk par pf py n :: fl (n_id n) true (n_id y) b ++ [mk (n_id n) true (n_id y) y]
   | CIf n t e => mk par pf py n :: fl (n_id n) false 0 t ++ fl (n_id n) false 0 e
   end.
@@ -62,8 +65,8 @@ Definition all_leaves (l : list cstmt) : bool :=
 Definition leaf_nodes (l : list cstmt) : list onode :=
   flat_map (fun s => match s with CLeaf n _ => [n] | _ => [] end) l.
 
-Definition inner_inert (flat : list opinfo) (n : onode) (inner : list onode) : bool :=
-  forallb (fun i => inert flat (mk (n_id n) false 0 i)) inner.
+Definition inner_inert (flat : list opinfo) (n : onode) (inner : list (Z * onode)) : bool :=
+  forallb (inert flat) (imap inner).
 
 Definition occ (U : Z) (fb : bool) (whole : list cstmt) (n : onode) (r : list cstmt) : bool :=
   match fwd U r with
@@ -119,3 +122,31 @@ Definition sl_program (p0 : Z) (T : list cstmt) : bool :=
   forallb (fun a => forallb (fun b =>
      negb (static_conflict a b) || clsl_top flat (fst (fst (fst a))) (fst (fst (fst b))) T)
      (leavesl prog)) (leavesl prog).
+
+(* ---- comparisons used by the correspondence check (L1) --------------------------------------------------- *)
+Definition bkind_eqb (a b : bkind) : bool :=
+  match a, b with
+  | BDM, BDM | BCompute, BCompute | BOther, BOther | BSync, BSync | BDealloc, BDealloc => true
+  | _, _ => false
+  end.
+Definition opinfo_eqb (a b : opinfo) : bool :=
+  (oi_id a =? oi_id b) && bkind_eqb (oi_kind a) (oi_kind b) &&
+  list_eqb Z.eqb (oi_operands a) (oi_operands b) && list_eqb Z.eqb (oi_results a) (oi_results b) &&
+  (oi_parent a =? oi_parent b) && Bool.eqb (oi_pfor a) (oi_pfor b) && (oi_pyield a =? oi_pyield b).
+
+(* same nesting, same ops in the same order, barriers at the same places (ids of barriers, cores
+   and footprints are not compared) *)
+Fixpoint rshape_eqb (a b : rstmt) : bool :=
+  let fix leq (l1 l2 : list rstmt) {struct l1} : bool :=
+    match l1, l2 with
+    | [], [] => true
+    | x :: r, y :: r' => rshape_eqb x y && leq r r'
+    | _, _ => false
+    end in
+  match a, b with
+  | RLeaf i _ bi _ _, RLeaf j _ bj _ _ => Bool.eqb bi bj && (bi || (i =? j))
+  | RFor i x, RFor j y => (i =? j) && leq x y
+  | RIf i t e, RIf j t' e' => (i =? j) && leq t t' && leq e e'
+  | _, _ => false
+  end.
+Definition rshapel_eqb (l1 l2 : list rstmt) : bool := list_eqb rshape_eqb l1 l2.
